@@ -17,7 +17,9 @@ from .. import common
 RULE = (
     "all strings up to the length bound over a 22-character PVL-significant "
     "alphabet (exhaustive), concatenations of borderline atoms, random longer "
-    "strings; x 5 (grammar, decoder, encoder) triples. distinct = distinct "
+    "strings; x 5 (grammar, decoder, encoder) triples, plus 6 encoders built "
+    "with a grammar and a decoder of different dialects (writer law only); a "
+    "sample re-observed in a pristine process. distinct = distinct "
     "(string, dialect); non-trivial = string is not a plain identifier"
 )
 ALPHABET = list("aAeE019+-.:#_TZ\"'<=;/ ")
@@ -49,6 +51,73 @@ def triples(pvl):
         "ISIS": (isis_g, D.OmniDecoder(grammar=isis_g), E.ISISEncoder()),
         "default": (omni_g, D.OmniDecoder(grammar=omni_g), None),
     }
+
+
+def mixed_writers(pvl):
+    """Encoders whose quoting rule (grammar) and decoder are of different
+    dialects - legal constructor arguments.  Only the reader/writer law is
+    judged for them: what the encoder writes without quotes must decode, with
+    the encoder's OWN decoder, to the identical string."""
+    G, D, E = pvl.grammar, pvl.decoder, pvl.encoder
+    return {
+        "PVLEncoder+ODLDecoder": E.PVLEncoder(decoder=D.ODLDecoder()),
+        "PVLEncoder+PDSLabelDecoder": E.PVLEncoder(decoder=D.PDSLabelDecoder()),
+        "ISISEncoder+ODLDecoder": E.ISISEncoder(decoder=D.ODLDecoder()),
+        "PVLEncoder(ISISGrammar)+PVLDecoder": E.PVLEncoder(
+            grammar=G.ISISGrammar(), decoder=D.PVLDecoder()),
+        "PVLEncoder(OmniGrammar)+PVLDecoder": E.PVLEncoder(
+            grammar=G.OmniGrammar(), decoder=D.PVLDecoder()),
+        "PVLEncoder+OmniDecoder": E.PVLEncoder(decoder=D.OmniDecoder()),
+    }
+
+
+def check_writer_only(rec, name, enc, s):
+    g = enc.grammar
+    if not all(g.char_allowed(c) for c in s):
+        return
+    st, out = attempt(enc.encode_string, s)
+    rec.count("mixed_writer_checks")
+    wit = {"dialect": name, "string": s}
+    if st == "raised":
+        rec.violation("C17", name, "encode_string-raised-non-ValueError",
+                      {"exc": out, "reason": "mixed"}, wit, str(out))
+        return
+    if st != "ok":
+        return
+    quoted = out != s
+    rec.count("mixed_writer_quoted" if quoted else "mixed_writer_unquoted")
+    st2, back = attempt(enc.decoder.decode_simple_value, out)
+    folds = hasattr(enc.decoder, "is_identifier")
+    want = fold(s) if (quoted and folds) else s
+    if not (st2 == "ok" and type(back) is str and back == want):
+        rec.violation(
+            "C17", name,
+            "written-string-does-not-read-back" if quoted else
+            "unquoted-output-does-not-decode-to-itself",
+            {"decoder": "own", "quoted": quoted, "reason": "mixed",
+             "reads_as": type(back).__name__ if st2 == "ok" else st2}, wit,
+            f"encode_string({s!r}) = {out!r}; the encoder's own decoder gives "
+            f"{st2} {back!r}")
+
+
+def observe_all(pvl, T, s):
+    """Everything public about *s* in every dialect, as plain data (compared
+    with the same observation made in a pristine process)."""
+    out = {}
+    for dialect, (g, d, enc) in T.items():
+        cls, parts = classify(s, g, d)
+        t = pvl.token.Token(s, grammar=g, decoder=d)
+        preds = []
+        for p in ("is_quoted_string", "is_numeric", "is_datetime",
+                  "is_unquoted_string", "is_parameter_name", "is_simple_value"):
+            try:
+                preds.append(bool(getattr(t, p)()))
+            except Exception as e:
+                preds.append(type(e).__name__)
+        st, val = attempt(d.decode_simple_value, s)
+        w = attempt(enc.encode_string, s) if enc is not None else None
+        out[dialect] = (cls, tuple(preds), st, type(val).__name__, repr(val), w)
+    return out
 
 
 ODL_FAMILY_DECODERS = ("ODL", "PDS3", "ISIS", "default")
@@ -264,10 +333,23 @@ def strings_for(tier, seed, part, nparts):
 def shard(i, n, tier, seed, rec, hb):
     pvl = common.import_pvl()
     T = triples(pvl)
+    # forked before this worker has classified anything: what a string is must
+    # not depend on what any dialect was asked before
+    pristine = common.Pristine(lambda s: observe_all(pvl, triples(pvl), s))
+    try:
+        _shard(i, n, tier, seed, rec, hb, pvl, T, pristine)
+    finally:
+        pristine.close()
+
+
+def _shard(i, n, tier, seed, rec, hb, pvl, T, pristine):
     order = list(T.items())
+    mixed = mixed_writers(pvl)
     for k, (src, s) in enumerate(strings_for(tier, seed, i, n)):
         hb.beat()
         rec.count(f"strings[{src}]")
+        for name, enc in mixed.items():
+            check_writer_only(rec, name, enc, s)
         # the dialects take turns going first: state shared between the
         # classes of one process must not leak from one dialect to another
         rot = order[k % len(order):] + order[:k % len(order)]
@@ -278,6 +360,19 @@ def shard(i, n, tier, seed, rec, hb):
             rec.case((dialect, s), not IDENT.match(s),
                      sample={"dialect": dialect, "string": s, "class": cls}
                      if rec.c["evaluations"] % 5003 == 0 else None)
+        if (src == "atoms" and (s in ATOMS or k % 23 == 0)) or k % 211 == 0:
+            here = observe_all(pvl, T, s)
+            there = pristine.ask(s)
+            rec.count("compared_with_a_pristine_process")
+            if here != there:
+                diff = [d for d in here if here[d] != there.get(d)]
+                rec.violation(
+                    "C17", diff[0], "classification-depends-on-process-history",
+                    {"reason": input_reason(s, T[diff[0]][0], diff[0])},
+                    {"string": s, "dialect": diff[0], "here": repr(here[diff[0]]),
+                     "pristine": repr(there.get(diff[0]))},
+                    f"{s!r} in {diff}: {here[diff[0]]!r} in this process, "
+                    f"{there.get(diff[0])!r} in a process that was asked nothing else")
 
 
 def finish_kwargs(rec, tier):
@@ -288,6 +383,8 @@ def finish_kwargs(rec, tier):
                                   "quick, <=4 thorough); atoms and random "
                                   "strings are samples"},
         required_counters=("predicate_checks", "writer_checks", "writer_quoted",
+                           "mixed_writer_unquoted", "mixed_writer_quoted",
+                           "compared_with_a_pristine_process",
                            "writer_unquoted", "exclusivity_checks",
                            "number_or_time_never_a_name_checks",
                            "class[keyword]", "class[quoted]", "class[based]",
@@ -306,8 +403,18 @@ def replay(data):
     rec = common.Rec()
     for w in data["witnesses"]:
         w = w["witness"]
-        g, d, enc = T[w["dialect"]]
-        check_string(rec, pvl, w["dialect"], g, d, enc, w["string"])
+        if w["dialect"] in T and "here" not in w:
+            g, d, enc = T[w["dialect"]]
+            check_string(rec, pvl, w["dialect"], g, d, enc, w["string"])
+        elif "here" in w:
+            pr = common.Pristine(lambda s: observe_all(pvl, triples(pvl), s))
+            print("pristine process:", pr.ask(w["string"]).get(w["dialect"]))
+            pr.close()
+            print("recorded in the worker:", w["here"])
+            print("(the difference needs the worker's history: re-run the check)")
+        else:
+            check_writer_only(rec, w["dialect"], mixed_writers(pvl)[w["dialect"]],
+                              w["string"])
     for ent in rec.viol.values():
         print("VIOLATES:", ent["record"], ent["witnesses"][0]["message"][:300])
     return 1 if rec.viol else 0
